@@ -248,10 +248,18 @@ func removeIncludedTaxes(doc billable) error {
 		return err
 	}
 
-	// Account for any rounding errors that we just can't handle
-	t := doc.getTotals()
-	if !totalWithTax.Equals(t.TotalWithTax) {
-		rnd := totalWithTax.Subtract(t.TotalWithTax)
+	// Account for any rounding errors that we just can't handle. Calculating
+	// again works from the amounts as they were presented after the previous
+	// pass, which may shift the total once more, so check the result twice.
+	for i := 0; i < 2; i++ {
+		t := doc.getTotals()
+		if totalWithTax.Equals(t.Payable) {
+			break
+		}
+		rnd := totalWithTax.Subtract(t.Payable)
+		if t.Rounding != nil {
+			rnd = rnd.Add(*t.Rounding)
+		}
 		t.Rounding = &rnd
 		if err := calculate(doc); err != nil {
 			return err
